@@ -126,3 +126,141 @@ Print Assumptions C19_rot_lost_only_around_failures.
 Print Assumptions C19_rot_loss_is_reported.
 Print Assumptions C19_rot_recovery_spec.
 Print Assumptions C19_rot_recovery_run.
+
+(* ------------------------------------------------------------------ buffered write modes *)
+Require Import FL.Base.Bytes FL.Fs.Fs FL.Names.FileSpec FL.Flw.Model FL.Flw.Run FL.Flw.FaultFacts FL.Flw.FaultRotSpec
+  FL.Flw.FaultRotation FL.Flw.FaultBufSpec FL.Flw.FaultBuffered.
+Open Scope nat_scope.
+
+(* (1) every fault oracle, every history of log calls / flush() / shutdown() / drop: file, buffer, error channel
+   (exact codes), rest of the oracle and the result of every call are what the specification computes; log calls,
+   shutdown and drop return 0 whatever fails, a failing flush() returns 1 and reports nothing *)
+Theorem C19_buf_faults_buffered :
+  forall c n t0 off fl ops, bufcfg c n -> Forall bop_stop ops ->
+  let r := run (fsys t0 off fl) (OStart c :: ops) in
+  let '(st, errs, rest, codes, _) := simb_run n BClosed fl ops in
+  content_of (wfs (s_w (fst r))) (the_name c) = concat (st_file st)
+  /\ pend_of (fst r) = (match st with BOpen _ B => Some (concat B) | _ => None end)
+  /\ werrs (s_w (fst r)) = errs
+  /\ wfaults (s_w (fst r)) = rest
+  /\ snd r = ObsRes 0 false :: List.map (fun k => ObsRes k false) codes.
+Proof. exact faults_buffered. Qed.
+
+(* what one operation of the specification does (see FaultBufSpec.step_okb) *)
+Theorem C19_buf_step : forall n st o fl, live st -> bop_stop o -> step_okb st o fl (sb_step n st o fl).
+Proof. exact sb_step_ok. Qed.
+
+(* (2) the loss is bounded and announced: after the drop the file is the concatenation of a subsequence of the records;
+   a lost record is the incoming record of a log call with a failing call (reported EWrite) or was in the buffer when
+   the third flush attempt of the drop failed (EFlush reported twice); what has reached the file stays; the number
+   of operations that lose something is at most the number of reports *)
+Theorem C19_buf_loss_bounded :
+  forall c n t0 off fl ops, bufcfg c n -> Forall bop ops ->
+  let x := fst (run (fsys t0 off fl) (OStart c :: ops ++ [OStop])) in
+  let t := btrace n BClosed fl (ops ++ [OStop]) in
+  let lost := concat (List.map (fun e => o_lost (t_out e)) t) in
+  exists kept,
+    content_of (wfs (s_w x)) (the_name c) = concat kept
+    /\ Subseq kept (recs_of ops)
+    /\ length (recs_of ops) = length kept + length lost
+    /\ List.map t_op t = ops ++ [OStop]
+    /\ werrs (s_w x) = concat (List.map (fun e => o_errs (t_out e)) t)
+    /\ fl = concat (List.map t_usedb t) ++ wfaults (s_w x)
+    /\ Forall entry_ok t
+    /\ length (filter loses t) <= length (werrs (s_w x)).
+Proof. exact buffered_loss_bounded. Qed.
+
+(* before the drop: file ++ buffer = the records without the lost ones; one EWrite per lost record *)
+Theorem C19_buf_accepted :
+  forall c n t0 off fl ops, bufcfg c n -> Forall bop ops ->
+  let x := fst (run (fsys t0 off fl) (OStart c :: ops)) in
+  exists F B,
+    content_of (wfs (s_w x)) (the_name c) = concat F /\ pend_bytes x = concat B
+    /\ Subseq (F ++ B) (recs_of ops)
+    /\ length (recs_of ops) = length (F ++ B) + nlost (werrs (s_w x))
+    /\ nlost (werrs (s_w x)) <= length (werrs (s_w x)).
+Proof. exact buffered_accepted. Qed.
+
+(* (3) recovery *)
+Theorem C19_buf_recovery :
+  forall c n t0 off fl ops1 ops2 f, bufcfg c n -> Forall bop ops1 -> Forall bop ops2 -> final_op f ->
+  let x1 := fst (run (fsys t0 off fl) (OStart c :: ops1)) in
+  let x2 := fst (run (fsys t0 off fl) (OStart c :: ops1 ++ ops2 ++ [f])) in
+  all_false (wfaults (s_w x1)) ->
+  content_of (wfs (s_w x2)) (the_name c)
+    = content_of (wfs (s_w x1)) (the_name c) ++ pend_bytes x1 ++ concat (recs_of ops2)
+  /\ pend_bytes x2 = []
+  /\ werrs (s_w x2) = werrs (s_w x1)
+  /\ all_false (wfaults (s_w x2)).
+Proof. exact buffered_recovery_run. Qed.
+
+(* the record-counting statement of the direct mode does not carry over: five records lost, two reports *)
+Import String.StringSyntax.
+Open Scope string_scope.
+Theorem C19_buf_more_lost_than_reported :
+  bx_run false 100 [false; true; true; true] [W "a"; W "b"; W "c"; W "d"; W "e"; OStop]
+  = ([], None, [EFlush; EFlush], [], [0; 0; 0; 0; 0; 0]%N).
+Proof. vm_compute; reflexivity. Qed.
+
+Print Assumptions C19_buf_faults_buffered.
+Print Assumptions C19_buf_step.
+Print Assumptions C19_buf_loss_bounded.
+Print Assumptions C19_buf_accepted.
+Print Assumptions C19_buf_recovery.
+
+(* ------------------------------------------------------------------ buffered, with rotation *)
+(* Numbers naming, size criterion, BufWriter of capacity n; proofs in Flw/FaultBufRotSpec.v and Flw/FaultBufRot.v *)
+Require Import FL.Flw.NumInv FL.Flw.NumKill FL.Flw.FaultBufRotSpec FL.Flw.FaultBufRot.
+
+(* (1) the directory, the buffer, the error channel, the rest of the oracle and the result codes are what the
+   specification simrb_run computes *)
+Theorem C19_buf_rot_faults :
+  forall c n m t0 off fl ops, numcfg c (CSize m) -> c_cap c = Some n -> Forall rop_stop ops ->
+  let r := run (fsys t0 off fl) (OStart c :: ops) in
+  let '(st, errs, rest, codes, _) := simrb_run n (c_append c) m (RInit false) fl ops in
+  FsFacts.fs_wf (wfs (s_w (fst r)))
+  /\ reader_view_opt c (wfs (s_w (fst r))) (rb_closed st) (rb_cur st)
+  /\ pend_of (fst r) = rb_pend st
+  /\ werrs (s_w (fst r)) = errs
+  /\ wfaults (s_w (fst r)) = rest
+  /\ exists obs, snd r = ObsRes 0 false :: obs /\ Forall2 obs_code_is codes obs.
+Proof. exact faults_buffered_rotation. Qed.
+
+Theorem C19_buf_rot_step : forall n ap m st o fl, rb_live st -> rop_stop o -> rstep_ok st o fl (rb_step n ap m st o fl).
+Proof. exact rb_step_ok. Qed.
+
+(* (2) *)
+Theorem C19_buf_rot_loss_bounded :
+  forall c n m t0 off fl ops tail,
+  numcfg c (CSize m) -> c_cap c = Some n -> Forall rop ops -> tail = [] \/ tail = [OStop] ->
+  let x := fst (run (fsys t0 off fl) (OStart c :: ops ++ tail)) in
+  let t := rb_trace n (c_append c) m (RInit false) fl (ops ++ tail) in
+  let lost := concat (List.map (fun e => r_lost (tr_out e)) t) in
+  exists closed ocur kept,
+    reader_view_opt c (wfs (s_w x)) closed ocur
+    /\ dir_stream closed ocur ++ pend_bytes x = concat kept
+    /\ Subseq kept (recs_of ops)
+    /\ length (recs_of ops) = length kept + length lost
+    /\ werrs (s_w x) = concat (List.map (fun e => r_errs (tr_out e)) t)
+    /\ Forall tr_ok t
+    /\ length (filter tr_loses t) <= length (werrs (s_w x)).
+Proof. exact buffered_rotation_loss_bounded. Qed.
+
+(* (3) *)
+Theorem C19_buf_rot_recovery :
+  forall c n m t0 off fl ops1 ops2 f,
+  numcfg c (CSize m) -> c_cap c = Some n -> Forall rop ops1 -> Forall rop ops2 -> f = OFlush \/ f = OStop ->
+  let x1 := fst (run (fsys t0 off fl) (OStart c :: ops1)) in
+  let x2 := fst (run (fsys t0 off fl) (OStart c :: ops1 ++ ops2 ++ [f])) in
+  all_false (wfaults (s_w x1)) ->
+  exists cl1 cu1 cl2 cu2,
+    reader_view_opt c (wfs (s_w x1)) cl1 cu1 /\ reader_view_opt c (wfs (s_w x2)) cl2 cu2
+    /\ dir_stream cl2 cu2 = dir_stream cl1 cu1 ++ pend_bytes x1 ++ concat (recs_of ops2)
+    /\ pend_bytes x2 = []
+    /\ werrs (s_w x2) = werrs (s_w x1).
+Proof. exact buffered_rotation_recovery_run. Qed.
+
+Print Assumptions C19_buf_rot_faults.
+Print Assumptions C19_buf_rot_step.
+Print Assumptions C19_buf_rot_loss_bounded.
+Print Assumptions C19_buf_rot_recovery.
